@@ -170,6 +170,20 @@ def gen_mod(rng, size=1.0):
         if rng.random() < 0.3:
             fn, bn = rng.choice(m.blockaddrs)
             m.uselist.append((fn, bn))
+    # comdats of function definitions (choices from an auxiliary generator that is a function of what has been chosen so far: the main stream
+    # is not shifted): a comdat named like the function itself (printed `comdat`) or another one (`comdat($c)`), also while a comdat named like the
+    # function exists
+    import random as _random
+    aux = _random.Random("fcomdat|" + ",".join(str(f["name"]) for f in m.funcs) + "|" + ",".join(m.comdats))
+    m.fcomdats = []
+    for f in m.funcs:
+        if f["blocks"] is None or f["name"] is None or aux.random() < 0.5:
+            continue
+        if aux.random() < 0.6 and f["name"] not in m.comdats:
+            m.fcomdats.append(f["name"])
+        pool = m.comdats + m.fcomdats
+        if pool:
+            f["comdat"] = aux.choice(pool)
     return m
 
 
@@ -418,8 +432,9 @@ def render(m, rng=None, shuffle=False):
             if fld.startswith("%"):
                 refs.append("T=" + fld[1:].rstrip("*"))
         sk.append("T|%s|%s" % (n, "!opaque" if body is None else " ".join(refs)))
-    cds = ["$%s = comdat any" % n for n in natsorted(m.comdats)]
-    for n in m.comdats:
+    allcd = m.comdats + getattr(m, "fcomdats", [])
+    cds = ["$%s = comdat any" % n for n in natsorted(allcd)]
+    for n in allcd:
         sk.append("C|%s|" % n)
     gid = 0
     glob, alias = [], []
@@ -466,7 +481,11 @@ def render(m, rng=None, shuffle=False):
             md = ""
             if f["md"] is not None:
                 md = " !dbg !%d" % f["md"]; mrefs = mrefs + [f["md"]]
-            funcs.append("define %s %s(%s)%s%s%s {\n%s\n}" % (f["ret"], ident, ", ".join(ps), " addrspace(%d)" % f["as"] if f.get("as") else "", ags, md, "\n".join(lines)))
+            cd = ""
+            if f.get("comdat"):
+                cd = " comdat" if f["comdat"] == f["name"] else " comdat($%s)" % f["comdat"]
+                refs.append("C=" + f["comdat"])
+            funcs.append("define %s %s(%s)%s%s%s%s {\n%s\n}" % (f["ret"], ident, ", ".join(ps), " addrspace(%d)" % f["as"] if f.get("as") else "", ags, cd, md, "\n".join(lines)))
             refs += ["G=" + g for g in grefs] + ["M=%d" % x for x in mrefs]
             sk.append("F|%s|%s|%s|%s" % (ident[1:] if f["name"] else "#", " ".join(refs), " ".join(ldefs), " ".join(lrefs)))
     ags = ["attributes #%d = { %s }" % (i, m.attrgroups[i]) for i in sorted(m.attrgroups)]
